@@ -230,6 +230,55 @@ pub fn generate(g: &mut Gen) {
             let mut bounds = vec![0usize]; for m in &msgs { bounds.push(bounds.last().unwrap() + m.len()); }
             // what was sent, for the oracle
             ops.push(format!("sent {}", msgs.iter().map(|m| hex(m)).collect::<Vec<_>>().join(" ")));
+            if proto == "chainsync-header" {
+                // tie of the chain-sync decoder model (csDec / csEnc)
+                for _ in 0..r.range(8, 16) {
+                    let head = |major: u8, v: u64, w: u8| -> Vec<u8> { let m = major << 5; match w { 0 if v < 24 => vec![m | v as u8], 0 | 1 if v < 256 => vec![m | 24, v as u8], 0 | 1 | 2 if v < 65536 => { let mut x = vec![m | 25]; x.extend((v as u16).to_be_bytes()); x }
+                        0..=3 if v < (1 << 32) => { let mut x = vec![m | 26]; x.extend((v as u32).to_be_bytes()); x } _ => { let mut x = vec![m | 27]; x.extend(v.to_be_bytes()); x } } };
+                    let pt = |r: &mut Rng| -> Vec<u8> { if r.chance(1, 4) { vec![0x80] } else { let hl = *r.pick(&[0usize, 1, 24, 32]); let h = r.bytes(hl); let mut x = head(4, *r.pick(&[2u64, 2, 2, 1, 3]), r.below(5) as u8); x.extend(head(0, r.u64_edgy(), r.below(5) as u8)); x.extend(head(2, h.len() as u64, r.below(5) as u8)); x.extend(h); x } };
+                    let tip = |r: &mut Rng| -> Vec<u8> { let mut x = head(4, *r.pick(&[2u64, 2, 3]), r.below(3) as u8); x.extend(pt(r)); x.extend(head(0, r.u64_edgy(), r.below(5) as u8)); x };
+                    let hdrc = |r: &mut Rng| -> Vec<u8> { let body = small_blob(r); let v = *r.pick(&[0u64, 0, 1, 6, 255, 256]); let mut x = head(4, 2, r.below(3) as u8); x.extend(head(0, v, r.below(5) as u8));
+                        if v == 0 { x.extend(head(4, 2, 0)); x.extend(head(4, *r.pick(&[2u64, 2, 2, 3]), r.below(3) as u8)); x.extend(head(0, *r.pick(&[0u64, 1, 255, 256]), r.below(5) as u8)); x.extend(head(0, r.u64_edgy(), r.below(5) as u8)); }
+                        x.extend(head(6, *r.pick(&[24u64, 24, 2]), r.below(3) as u8)); x.extend(head(2, body.len() as u64, r.below(5) as u8)); x.extend(body); x };
+                    let mut b = match r.below(10) {
+                        0 => { let mut x = head(4, 3, r.below(5) as u8); x.extend(head(0, 2, r.below(5) as u8)); x.extend(hdrc(r)); x.extend(tip(r)); x }
+                        1 => { let mut x = head(4, 3, 0); x.extend(head(0, *r.pick(&[3u64, 5]), 0)); x.extend(pt(r)); x.extend(tip(r)); x }
+                        2 => { let n = r.below(4); let mut x = vec![0x82, 0x04]; if r.chance(1, 3) { x.push(0x9f); for _ in 0..n { x.extend(pt(r)); } if r.chance(3, 4) { x.push(0xff); } } else { x.extend(head(4, n + r.below(2), r.below(5) as u8)); for _ in 0..n { x.extend(pt(r)); } } x }
+                        3 => { let mut x = vec![0x82, 0x06]; x.extend(tip(r)); x }
+                        4 => { let mut x = head(4, 1, r.below(3) as u8); x.extend(head(0, r.below(10), r.below(5) as u8)); x }
+                        5 => { let n = r.below(10) as usize; r.bytes(n) }
+                        _ => gen_n1("chainsync-header", r),
+                    };
+                    if b.len() > 4000 { b.truncate(4000); }
+                    match r.below(4) { 0 => { let n = r.below(b.len() as u64 + 1) as usize; b.truncate(n); }, 1 => b.extend(r.bytes(2)), _ => {} }
+                    ops.push(format!("{} {}", if r.chance(1, 4) { "csenc" } else { "csdec" }, hex(&b)));
+                }
+            }
+            if proto == "blockfetch" {
+                // tie of the block-fetch decoder model (bfDec / bfEnc): valid, hand-built with every head width, indefinite strings,
+                // other tags, truncated, extended, random bytes
+                for _ in 0..r.range(8, 16) {
+                    let head = |major: u8, v: u64, w: u8| -> Vec<u8> { let m = major << 5; match w { 0 if v < 24 => vec![m | v as u8], 0 | 1 if v < 256 => vec![m | 24, v as u8], 0 | 1 | 2 if v < 65536 => { let mut x = vec![m | 25]; x.extend((v as u16).to_be_bytes()); x }
+                        0..=3 if v < (1 << 32) => { let mut x = vec![m | 26]; x.extend((v as u32).to_be_bytes()); x } _ => { let mut x = vec![m | 27]; x.extend(v.to_be_bytes()); x } } };
+                    let pt = |r: &mut Rng| -> Vec<u8> { match r.below(6) {
+                        0 => vec![0x80],
+                        1 => { let mut x = vec![*r.pick(&[0x81u8, 0x83, 0x9f, 0x98])]; if x[0] == 0x98 { x.push(2); } x.extend(head(0, r.u64_edgy(), 0)); x.extend(head(2, 2, 0)); x.extend([1, 2]); x }
+                        _ => { let hl = *r.pick(&[0usize, 1, 23, 24, 32]); let h = r.bytes(hl); let mut x = head(4, 2, r.below(5) as u8); x.extend(head(0, r.u64_edgy(), r.below(5) as u8)); x.extend(head(2, h.len() as u64, r.below(5) as u8)); x.extend(h); x } } };
+                    let mut b = match r.below(9) {
+                        0 => { let mut x = head(4, 3, r.below(5) as u8); x.extend(head(0, 0, r.below(5) as u8)); x.extend(pt(r)); x.extend(pt(r)); x }
+                        1 => { let mut x = head(4, *r.pick(&[0u64, 1, 2, 7]), r.below(3) as u8); x.extend(head(0, r.below(8), r.below(5) as u8)); x }
+                        2 => { let body = small_blob(r); let mut x = head(4, 2, r.below(5) as u8); x.extend(head(0, 4, r.below(5) as u8)); x.extend(head(6, *r.pick(&[24u64, 0, 23, 1000, 1 << 40]), r.below(5) as u8));
+                               x.extend(head(2, body.len() as u64, r.below(5) as u8)); x.extend(body); x }
+                        3 => { let mut x = vec![0x82, 0x04, 0xd8, 0x18]; x.extend(*r.pick(&[&[0x5fu8, 0x41, 0x01, 0xff][..], &[0x5f, 0xff], &[0x61, 0x61], &[0x18, 0x18], &[0x5b, 0xff, 0xff, 0xff, 0xff, 0xff, 0xff, 0xff, 0xff], &[0x5c, 0x00], &[0x3b, 0x00]])); x }
+                        4 => { let n = r.below(10) as usize; r.bytes(n) }
+                        5 => { let mut x = vec![0x82, 0x04]; x.extend(head(*r.pick(&[0u8, 1, 2, 3, 4, 5, 7]), 24, 1)); x.extend([0x41, 0x00]); x }
+                        _ => gen_n1("blockfetch", r),
+                    };
+                    if b.len() > 4000 { b.truncate(4000); }
+                    match r.below(4) { 0 => { let n = r.below(b.len() as u64 + 1) as usize; b.truncate(n); }, 1 => b.extend(r.bytes(2)), _ => {} }
+                    ops.push(format!("{} {}", if r.chance(1, 4) { "bfenc" } else { "bfdec" }, hex(&b)));
+                }
+            }
             if proto == "keepalive" {
                 // tie of the keep-alive decoder model (kDec / kEnc): valid, truncated, wider heads, wrong types, random bytes
                 for _ in 0..r.range(6, 14) {
@@ -444,6 +493,57 @@ pub fn run_case(case: &Case, out: &mut Out) {
                 if a != c { out.viol("keepalive-stacks-differ", format!("{} : {a} vs {c}", hex(&b))); }
                 out.cov(format!("kdec:{}", a.split(' ').take(2).collect::<Vec<_>>().join("-")));
                 out.reply(a);
+            }
+            "bfdec" | "bfenc" => {
+                let Some(b) = unhex(&op[1]) else { out.reply("bad-op".into()); continue; };
+                let pt1 = |p: &n1::Point| match p { n1::Point::Origin => "origin".to_string(), n1::Point::Specific(s, h) => format!("{s}:{}", hex(h)) };
+                let pt2 = |p: &n2::Point| match p { n2::Point::Origin => "origin".to_string(), n2::Point::Specific(s, h) => format!("{s}:{}", hex(h)) };
+                let mut d = minicbor::Decoder::new(&b);
+                let r1 = d.decode::<n1::blockfetch::Message>();
+                let pos1 = d.position();
+                let mut d = minicbor::Decoder::new(&b);
+                let r2 = d.decode::<n2::blockfetch::Message>();
+                let pos2 = d.position();
+                let s1 = match &r1 {
+                    Ok(n1::blockfetch::Message::RequestRange { range }) => format!("ok range {} {} {pos1}", pt1(&range.0), pt1(&range.1)),
+                    Ok(n1::blockfetch::Message::ClientDone) => format!("ok clientdone {pos1}"), Ok(n1::blockfetch::Message::StartBatch) => format!("ok startbatch {pos1}"),
+                    Ok(n1::blockfetch::Message::NoBlocks) => format!("ok noblocks {pos1}"), Ok(n1::blockfetch::Message::Block { body }) => format!("ok block {} {pos1}", hex(body)),
+                    Ok(n1::blockfetch::Message::BatchDone) => format!("ok batchdone {pos1}"),
+                    Err(e) if e.is_end_of_input() => "err eoi".into(), Err(_) => "err other".into() };
+                let s2 = match &r2 {
+                    Ok(n2::blockfetch::Message::RequestRange(range)) => format!("ok range {} {} {pos2}", pt2(&range.0), pt2(&range.1)),
+                    Ok(n2::blockfetch::Message::ClientDone) => format!("ok clientdone {pos2}"), Ok(n2::blockfetch::Message::StartBatch) => format!("ok startbatch {pos2}"),
+                    Ok(n2::blockfetch::Message::NoBlocks) => format!("ok noblocks {pos2}"), Ok(n2::blockfetch::Message::Block(body)) => format!("ok block {} {pos2}", hex(body)),
+                    Ok(n2::blockfetch::Message::BatchDone) => format!("ok batchdone {pos2}"),
+                    Err(e) if e.is_end_of_input() => "err eoi".into(), Err(_) => "err other".into() };
+                if s1 != s2 { out.viol("blockfetch-stacks-differ", format!("{} : {s1} vs {s2}", hex(&b))); }
+                if op[0] == "bfdec" { out.cov(format!("bfdec:{}", s1.split(' ').take(2).collect::<Vec<_>>().join("-"))); out.reply(s1); }
+                else { match r1 { Ok(m) => out.ok(hex(&enc(&m))), Err(_) => out.err("decode") } }
+            }
+            "csdec" | "csenc" => {
+                let Some(b) = unhex(&op[1]) else { out.reply("bad-op".into()); continue; };
+                macro_rules! show_cs { ($ns:ident, $b:expr) => {{
+                    let pt = |p: &$ns::Point| match p { $ns::Point::Origin => "origin".to_string(), $ns::Point::Specific(s, h) => format!("{s}:{}", hex(h)) };
+                    let tip = |t: &$ns::chainsync::Tip| format!("{}@{}", pt(&t.0), t.1);
+                    let hdr = |c: &$ns::chainsync::HeaderContent| format!("v{}/{}/{}", c.variant, c.byron_prefix.map(|(a, b)| format!("{a},{b}")).unwrap_or("-".into()), hex(&c.cbor));
+                    let mut d = minicbor::Decoder::new($b);
+                    let r = d.decode::<$ns::chainsync::Message<$ns::chainsync::HeaderContent>>();
+                    let pos = d.position();
+                    use $ns::chainsync::Message as M;
+                    let s = match &r {
+                        Ok(M::RequestNext) => format!("ok next {pos}"), Ok(M::AwaitReply) => format!("ok await {pos}"),
+                        Ok(M::RollForward(c, t)) => format!("ok fwd {} {} {pos}", hdr(c), tip(t)), Ok(M::RollBackward(p, t)) => format!("ok bwd {} {} {pos}", pt(p), tip(t)),
+                        Ok(M::FindIntersect(ps)) => format!("ok find [{}] {pos}", ps.iter().map(|p| pt(p)).collect::<Vec<_>>().join(" ")),
+                        Ok(M::IntersectFound(p, t)) => format!("ok found {} {} {pos}", pt(p), tip(t)), Ok(M::IntersectNotFound(t)) => format!("ok notfound {} {pos}", tip(t)),
+                        Ok(M::Done) => format!("ok done {pos}"),
+                        Err(e) if e.is_end_of_input() => "err eoi".into(), Err(_) => "err other".into() };
+                    (s, r.ok().and_then(|m| minicbor::to_vec(&m).ok()))
+                }} }
+                let (s1, e1) = show_cs!(n1, &b);
+                let (s2, _e2) = show_cs!(n2, &b);
+                if s1 != s2 { out.viol("chainsync-stacks-differ", format!("{} : {s1} vs {s2}", hex(&b))); }
+                if op[0] == "csdec" { out.cov(format!("csdec:{}", s1.split(' ').take(2).collect::<Vec<_>>().join("-"))); out.reply(s1); }
+                else { match e1 { Some(v) => out.ok(hex(&v)), None => out.err("decode") } }
             }
             "kenc" => {
                 let (k, c) = (op[1].parse::<u8>().unwrap_or(9), op[2].parse::<u16>().unwrap_or(0));
